@@ -11,8 +11,8 @@ FUNCTIONS = [
     "batchie.models.main.predict_viability_all / ModelEvaluation.save_h5 / load_h5",
 ]
 BOUNDS = {
-    "quick": "holders of 1, 2, 3, 10, 11, 12 and 101 samples ('10' < '2' and '100' < '11' matter), every parameter a symbolic float64 of tiny shape (float32 casts visible); both sample types, empty and non-empty single-effect table; three parameters of one sample ranging over every float class (finite, NaN, +inf, -inf, -0.0); 2 chains of lengths (3,2), (1,11), (11,1), (2,11), (1,1) and 3 chains (2,1,2), (11,2,1) in every file order",
-    "thorough": "holders of every size 1..25 and of 101 and 112 samples (three-digit keys: '100' < '11'), larger parameter shapes (3 samples x 3 treatments x 2 dimensions); every pair of chain lengths from {1,2,3,10,11,12}, every triple from {1,2,11}, 4, 5 and 6 chains; every file order",
+    "quick": "holders of 1, 2, 3, 10, 11, 12, 101 and 257 samples ('10' < '2' and '100' < '11' matter), every parameter a symbolic float64 of tiny shape (float32 casts visible); both sample types, empty and non-empty single-effect table; three parameters of one sample ranging over every float class (finite, NaN, +inf, -inf, -0.0); 2 chains of lengths (3,2), (1,11), (11,1), (2,11), (1,1) and 3 chains (2,1,2), (11,2,1) in every file order",
+    "thorough": "holders of every size 1..25 and of 101, 112, 256, 257, 300 and 1001 samples (three-digit keys: '100' < '11'), larger parameter shapes (3 samples x 3 treatments x 2 dimensions); every pair of chain lengths from {1,2,3,10,11,12}, every triple from {1,2,11}, 4, 5 and 6 chains; every file order",
 }
 ASSUMPTIONS = [
     "HDF5 is a faithful typed store whose groups iterate their keys in ASCII order ('0','1','10','11','2',...); attrs return what was stored",
@@ -27,7 +27,7 @@ BUDGET_S = {"quick": 240, "thorough": 1500}
 def configs(tier, seed):
     q = tier == "quick"
     out = []
-    for n in ((1, 2, 3, 10, 11, 12, 101) if q else list(range(1, 26)) + [101, 112]):
+    for n in ((1, 2, 3, 10, 11, 12, 101, 257) if q else list(range(1, 26)) + [101, 112, 256, 257, 300, 1001]):
         out.append(dict(name="roundtrip combo n=%d" % n, h="roundtrip", kind="combo", n=n))
     if not q:
         for n in (3, 11):
@@ -54,7 +54,7 @@ def configs(tier, seed):
 
 def fixtures(cfg):
     v = {}
-    for i in range(40 if cfg.get("n", 0) <= 40 else 120):
+    for i in range(40 if cfg.get("n", 0) <= 40 else cfg["n"] + 2):
         for k in range(24):
             v["th%d_%d" % (i, k)] = 0.1 * (i + 1) + 0.01 * k
         v["th%d_prec" % i] = 1.0 + i
